@@ -478,7 +478,7 @@ func c06Gen(r *Rand, tier string) []string {
 	// the file system as oracle tables (kept small: `globx` below runs the same code against the Lean model of the file system)
 	nGlob, nOpen := 100, 250
 	if tier == "thorough" {
-		nGlob, nOpen = 1000, 4000
+		nGlob, nOpen = 1000, 2200
 	}
 	out = append(out, c06GenGlobCases(r, tier)...)
 	out = append(out, c06GzipGenCases(r, tier)...)
